@@ -151,6 +151,30 @@ def routineNotesOutsideLoops (song : Song) (root : List Event) : Bool :=
       | none => true
       | some tevs => match firstNoteDepth 0 tevs with | some (_ + 1) => false | _ => true
 
+/-- the items of a routine's expansion in front of its first note carry no time -/
+def headTimeless : List Item → Bool
+  | [] => true
+  | i :: is => if i.ev.type = ev_NOTE then true else (i.src.on + i.src.off == 0) && headTimeless is
+
+/-- every drum routine the channel calls (first pass and the pass after the loop-back jump) plays only
+timeless commands in front of its first note, subroutines it calls included.  `Timeline.routineHead`
+collects the COMMANDS of a routine; a rest or tie in front of the routine's note takes time in the
+`Player` and in the byte stream alike, which the tick string of `Timeline.ticksOf` does not describe:
+such songs are outside the oracle's domain (the whole-song theorems carry the same hypothesis,
+"routine tracks = timeless commands before the first note"); model and implementation are still
+compared on them. -/
+def routineHeadsTimeless (song : Song) (root : List Event) : Bool :=
+  match perf song root with
+  | .error _ => true
+  | .ok items =>
+    let again := match Timeline.afterSegno items with
+      | some suffix => drumCalls (Timeline.drumAt false items) suffix
+      | none => []
+    (drumCalls false items ++ again).all fun p =>
+      match callK song limit 1 (trackIdOfParam p) with
+      | .error _ => true
+      | .ok ritems => headTimeless ritems
+
 /-! ### optimised songs
 
 The song-side hypotheses of `C01_optimize_preserves` on the ORIGINAL song, as the optimised-song
